@@ -55,6 +55,13 @@ func (f *FakeDNS) FailNext(name string, n int) {
 	f.mu.Unlock()
 }
 
+// QueryCount returns how many queries for name were seen.
+func (f *FakeDNS) QueryCount(name string) int {
+	f.mu.Lock()
+	defer f.mu.Unlock()
+	return f.Queries[strings.ToLower(name)]
+}
+
 // Hold blocks answers for name until the returned function is called.
 func (f *FakeDNS) Hold(name string) (release func()) {
 	ch := make(chan struct{})
